@@ -23,8 +23,10 @@ func runC17(c *Ctx) {
 	c.rule("reread-on-every-wakeup", "in the watch loop every select arm that does not return reaches the re-read (Value) before the next wait; only the file-event arm may skip it, and only under its name filter", 5)
 	c.rule("checksum-after-decode", "the checksum of the bytes read is recorded only on the decode-success path, and identical content yields the dedicated unchanged marker (which the loop maps to 'no report')", 2)
 	c.rule("notexist-classification", "whether the config file exists is decided by os.IsNotExist applied to the error of the re-read (which does not unwrap decoder errors); while it does not exist nothing is reported and the loop keeps waiting", 1)
-	c.rule("watch-repair", "after every read of an existing file, every path to the next wait re-resolves the symlink, re-adds the file watch if it was dropped and updates the directory watches (adding the new directory before removing the old one)", 3)
+	c.rule("watch-repair", "after every read of an existing file, every path to the next wait re-resolves the symlink, re-adds the file watch if it was dropped and updates the directory watches (old = directory resolved before this iteration, new = re-resolved; adding the new directory before removing the old one)", 4)
 	c.rule("dispatch-total", "the result of the re-read is dispatched by a type switch: nil -> ReportNewValue(the value just read); unchanged -> nothing; every other error -> ReportError (a not-exist syscall error excepted)", 3)
+	c.rule("blank-delegation", "(shared with C20) the ez entry points install the watched file through Blank.SetSource: the inner Watch gets the Dials watch context saved by Blank.Watch (not the SetSource caller's), the saved type and arguments", 5)
+	c.rule("blank-locking", "(shared with C20) Blank's fields are accessed under its mutex", 8)
 	c.rule("release", "the loop goroutine defers watcher.Close, WG.Done and signal.Stop at entry, returns on <-ctx.Done(), and WG.Add(1) precedes `go`", 4)
 
 	w := c.W
@@ -196,6 +198,64 @@ func runC17(c *Ctx) {
 			}
 			c.check(okES, "watch-repair", name+"#resolve", uc.Pos(), "the symlink target is re-resolved after the read and before the directory watches are updated", "the symlink target is not re-resolved before the directory watches are updated")
 		}
+		// old vs new directory: the first argument is computed from the resolved path as it was before this
+		// iteration's EvalSymlinks (otherwise old == new always and the watch never moves), the second from the re-resolved one
+		isDirOf := func(v ssa.Value) ssa.Value {
+			if call, ok := v.(*ssa.Call); ok && calleeFullName(call) == "path/filepath.Dir" {
+				return call.Call.Args[0]
+			}
+			return nil
+		}
+		ucArgs := updCalls[0].Common().Args
+		oldP, newP := isDirOf(ucArgs[1]), isDirOf(ucArgs[2])
+		okOld, okNew := false, false
+		if oldP != nil && newP != nil {
+			fromES := func(x ssa.Value) bool {
+				e, ok := x.(*ssa.Extract)
+				if !ok {
+					return false
+				}
+				call, ok := e.Tuple.(*ssa.Call)
+				return ok && calleeFullName(call) == "path/filepath.EvalSymlinks" && inLoop(call)
+			}
+			// new: can be this iteration's EvalSymlinks result
+			okNew = derivesAny(newP, fromES, nil)
+			// old: must not be (derive from) an EvalSymlinks result of the loop body that dominates the update call
+			okOld = true
+			var visit func(v ssa.Value, d int)
+			seenV := map[ssa.Value]bool{}
+			visit = func(v ssa.Value, d int) {
+				if seenV[v] || d > 6 {
+					return
+				}
+				seenV[v] = true
+				if fromES(v) {
+					e := v.(*ssa.Extract)
+					if domI(e.Tuple.(*ssa.Call), uc) {
+						okOld = false
+					}
+					return
+				}
+				if ph, ok := v.(*ssa.Phi); ok {
+					// a loop-header phi is the value from the previous iteration: fine
+					isHdr := false
+					for _, p := range ph.Block().Preds {
+						if ph.Block().Dominates(p) {
+							isHdr = true
+						}
+					}
+					if isHdr {
+						return
+					}
+					for _, e := range ph.Edges {
+						visit(e, d+1)
+					}
+				}
+			}
+			visit(oldP, 0)
+		}
+		c.check(okOld && okNew, "watch-repair", name+"#old-vs-new", uc.Pos(), "updateDirWatches(old, new): old is the directory of the path resolved before this iteration, new that of the re-resolved path",
+			"the directory watches are updated with an 'old' directory computed after the re-resolve (or a 'new' one that is not re-resolved): old == new on every call, so after a symlink swap the watch never moves to the new target directory")
 		// add-before-remove in updateDirWatches
 		var add, rem *ssa.Call
 		for _, i := range allInstrs(upd) {
@@ -301,6 +361,7 @@ func runC17(c *Ctx) {
 	}
 	c.check(goI != nil && addI != nil && domI(addI, goI) && staticCallee(goI) == origin(loop), "release", relName(watch)+"#wg", watch.Pos(), "WG.Add(1) precedes `go watchLoop`", "WG.Add does not precede the start of the loop goroutine")
 	_ = token.ADD
+	c20Blank(c)
 }
 
 func isReportCall(i ssa.Instruction) bool {
